@@ -330,4 +330,12 @@ def run_check(pid, level, fn):
     except Infra as e:
         print("INFRA property=%s: %s" % (pid, e), flush=True)
         rc = 2
+        if ctx.violations:
+            # violations already reported come from behaviour of the real code; trouble in a LATER step of the run (a driver
+            # that crashes on the same defect, a time-out) does not take them back
+            ctx.cov["aborted_by_infrastructure_failure"] = str(e)[:300]
+            try:
+                rc = ctx.finish()
+            except Exception:
+                rc = 1
     sys.exit(rc)
